@@ -2,6 +2,7 @@
 From Coq Require Import List NArith Bool.
 Import ListNotations.
 From SV Require Import Utf8 Escape Yaml YamlProofs.
+From SV Require Import YamlFlow.
 Local Open Scope N_scope.
 
 (* scrut's own part of the one-line {...} form is the scalar notation of environment values, names and paths.
@@ -17,6 +18,16 @@ Proof. exact quoted_clean. Qed.
 Theorem C17_scalar_round_trip : forall t, Forall (fun c => c < 1114112) t -> read_scalar (yaml_scalar t) = Some t.
 Proof. exact read_scalar_scalar. Qed.
 
+(* the environment mapping as to_yaml_one_liner writes it -- a flow mapping of name and quoted value, names plain where unambiguous and
+   quoted otherwise, values always quoted -- is read back by a reference reader of flow mappings (keys up to `: `,
+   double-quoted scalars, `, ` between entries, `}` at the end) as exactly the pairs that were written, in order, for any
+   number of variables and any Unicode text in names and values; whatever follows the mapping is left untouched *)
+Theorem C17_environment_reads_back : forall env rest, Forall pair_ok env -> read_env (env_text env ++ rest) = Some (env, rest).
+Proof. exact read_env_text. Qed.
+Example C17_environment_instance :     (* two variables; the second name holds a space, the second value a comma, a brace and a quote *)
+  read_env (env_text [([65], [120]); ([98; 32; 99], [44; 32; 125; 34])] ++ [125]) = Some ([([65], [120]); ([98; 32; 99], [44; 32; 125; 34])], [125]).
+Proof. vm_compute. reflexivity. Qed.
+
 Check C17_quoted_round_trip : forall t, Forall (fun c => c < 1114112) t -> yaml_unquote (yaml_quoted t) = Some t.
 
 (* a value with quote, backslash, colon-space, comma, braces, #, DEL, NEL and surrounding spaces *)
@@ -31,3 +42,4 @@ Proof. repeat split; vm_compute; reflexivity. Qed.
 Print Assumptions C17_quoted_round_trip.
 Print Assumptions C17_quoted_clean.
 Print Assumptions C17_scalar_round_trip.
+Print Assumptions C17_environment_reads_back.
